@@ -160,7 +160,9 @@ def make_batch(agent, algo: str, bid: int, B: int = 8):
         logp = [(-torch.rand((E,), generator=g)).numpy() for _ in range(T)]
         rew = [torch.randint(-1, 2, (E,), generator=g).float().numpy() for _ in range(T)]
         dones = [(torch.rand((E,), generator=g) < 0.3).float().numpy() for _ in range(T)]
-        vals = [torch.rand((E,), generator=g).numpy() for _ in range(T)]
+        # state values as a rollout records them: the CURRENT critic's predictions (PPO clips the value loss around them; with
+        # arbitrary numbers the clipped branch can win everywhere and the critic legitimately receives a zero gradient)
+        vals = [np.asarray(torch.as_tensor(agent.get_action(st)[3]).detach().cpu().numpy(), dtype=np.float32).reshape(E) for st in states]
         return (states, actions, logp, rew, dones, vals, sample_obs(osp, E, g), (torch.rand((E,), generator=g) < 0.3).float().numpy())
     ids = agent.agent_ids
     if algo in ("MADDPG", "MATD3"):
@@ -186,7 +188,11 @@ def make_batch(agent, algo: str, bid: int, B: int = 8):
         logp = mk(lambda: (-torch.rand((T, E), generator=g)).numpy())
         rew = mk(lambda: torch.randint(-1, 2, (T, E), generator=g).float().numpy())
         dones = mk(lambda: (torch.rand((T, E), generator=g) < 0.3).float().numpy())
-        vals = mk(lambda: torch.rand((T, E), generator=g).numpy())
+        if not isinstance(osp, (spaces.Dict, spaces.Tuple)):
+            per_t = [agent.get_action({a: states[a][t] for a in ids})[3] for t in range(T)]        # the current critics' predictions
+            vals = {a: np.stack([np.asarray(torch.as_tensor(per_t[t][a]).detach().cpu().numpy(), dtype=np.float32).reshape(E) for t in range(T)]) for a in ids}
+        else:
+            vals = mk(lambda: torch.rand((T, E), generator=g).numpy())
         nxt = mk(lambda: sample_obs(osp, E, g))
         nd = mk(lambda: (torch.rand((E,), generator=g) < 0.3).float().numpy())
         return (states, actions, logp, rew, dones, vals, nxt, nd)
